@@ -99,7 +99,7 @@ def jobs_for(tier, rng):
                         continue
                     ax, ay = rng.choice([(1, 1), (1, 1), (2, 1), (1, 3), (3, 2)])
                     rot = rng.choice([0, 90, 180, 270, 450, -90, "345", 0])
-                    k10 = rng.choice([0, 0, -3, -2, -1, 1, 2, 3, -10, -9, 6])
+                    k10 = rng.choice([0, 0, -3, -2, -1, 1, 2, 3, -10, -9, 6, 8, 9, 12])
                     S = (s[0] + O[0], s[1] + O[1])
                     E = (e[0] + O[0], e[1] + O[1])
                     jobs.append((r, O, S, E, large, sweep, ax, ay, rot, k10, "exact"))
